@@ -1,18 +1,16 @@
 SPECIFICATION Spec
 CONSTANTS
   NMsgs = 3
-  QosOf <- Q_212
+  QosOf <- Q_222
   MaxFaults = 2
   SessionLoss = TRUE
   ClearAfterRequeue = TRUE
   KeepOldWaiter = FALSE
-  CancelOnPublish = TRUE
+  CancelOnPublish = FALSE
   SilentLoss = TRUE
   LossyWrites = FALSE
 INVARIANT Qos2AtMostOnce
 INVARIANT CompletedIsDelivered
-INVARIANT NoPubrelUnanswered
-INVARIANT NothingStuck
 INVARIANT OnlyOwnRelease
 VIEW NoHist
 CHECK_DEADLOCK FALSE
